@@ -20,9 +20,9 @@ TEXT = {
          BASE + "Record abstraction assumes contracts on optimiser calls (_lower, fuse, rechunk, RootAlias) and the naming invariant (C06); dtype and kernel-produced block sizes are bounded only.", T),
  "C04": ("_materialize pins the raw root name on every return path (proved by record abstraction, all inputs); _slice_1d keys are valid block numbers, and the block coordinates blockwise / elemwise tasks refer to (_compute_block_id, _broadcast_block_id) lie inside the operand's grid (proved). Closure, acyclicity and key grids of whole graphs, and key/name consistency across in-place operations, are bounded stand-ins over the catalogue.",
          BASE + "Assumed contracts on optimiser calls; graph-level clauses bounded only.", T),
- "C10": ("Frame condition decided for all inputs by a static ownership analysis of every chunk-level kernel's real AST: each in-place write (element store, augmented assignment, any out=, in-place method, np.copyto) targets storage freshly allocated on every path that reaches it.",
+ "C10": ("Frame condition decided for all inputs by a static ownership analysis of every chunk-level kernel's real AST: each in-place write (element store, augmented assignment, any out=, in-place method, np.copyto) targets storage freshly allocated on every path that reaches it. Bounded additions: a source registered with a lock is read only while the lock is held whatever rewrites moved into the read; executing a random collection's graph twice gives the same numbers.",
          "Trusted: the aliasing/allocating catalogue of NumPy operations, declared frames/owned parameters/fresh callables (listed in evidence), purity => schedule independence (B3). Thread-level races inside NumPy or user functions are not decided.", TF),
- "C11": ("Frame of in-place operations decided statically for all inputs: Array._expr is assigned only in the sanctioned methods, _replace_expr drops every cached derivation unconditionally, expressions never mutate operands, the setitem kernel writes only to a fresh copy. Assignment values, keys and earlier-derived collections are checked on bounded in-place sequences.",
+ "C11": ("Frame of in-place operations decided statically for all inputs: Array._expr is assigned only in the sanctioned methods, _replace_expr drops every cached derivation unconditionally, expressions never mutate operands, the setitem kernel writes only to a fresh copy. Assignment values, keys and earlier-derived collections are checked on bounded in-place sequences. Proved from the real source (a fragment of setitem_array_expr): the block-local slice of a strided assignment key selects exactly the block's share of the selected positions, and a block is skipped exactly when it holds none; n-d mixed keys and multi-chunk dask values are bounded.",
          "Trusted: as C10. where()-based mask assignment and out= ufunc values are bounded only.", TF),
  "C12": ("For the integer/slice core of indexing the deciding step is proof: normalize_slice preserves the selection and yields canonical bounds, check_index refuses exactly the out-of-range integers, posify_index wraps negatives, and _slice_1d's per-block plan (int and slice, both step signs, any chunking incl. zero-length chunks) partitions exactly the selected positions - VCs from the real source discharged for all inputs. new_blockdim's entries are proved to be the per-piece selection counts in output order. Tuple-level normalisation, integer-list take, vindex points and .blocks are bounded stand-ins against NumPy.",
          BASE + "vindex, boolean dask masks and integer dask-array indices are not decided.", T),
@@ -46,7 +46,7 @@ TEXT = {
          BASE + "_layer and _accept_rechunk are bounded only; rank > 1 by the per-axis structure of the code.", T),
  "C25": ("The region/block index composition store relies on (fuse_slice: slice, integer and tuple-of-slices cases at rank 1 and 2, _normalize_slice_for_fusion) is proved from the real source for all inputs, and so is the store kernel load_store_chunk at rank 1 (effect log: exactly one element store into the target, at region composed with the block index, the block as value; none for an empty block). End-to-end writes (whole target, offset and strided regions, several pairs, delayed, return_stored) are a bounded stand-in over the catalogue; F8 is a recorded known finding.",
          BASE + "load_store_chunk's single write site is covered by the C10 frame analysis; npy-stack round trip and locks are not covered.", T),
- "C26": ("Decided for all import orders by a static import-effect analysis over every dask_array module: nothing executed at import time can reach xarray registration; register() is the only caller of _ensure_registered; no entry point.",
+ "C26": ("Decided for all import orders by a static import-effect analysis over every dask_array module: nothing executed at import time can reach xarray registration; register() is the only caller of _ensure_registered; no entry point. The value clause rests on the moving-window rewrite used by xarray's rolling path: its guard and block plan are proved (shared with C19) and rolling / cumulative samples are compared in fresh interpreters after register() (bounded).",
          "Trusted: Python's import semantics as modelled (module top levels, class bodies, decorators, defaults). The 'same values' clause and xarray's own plugin discovery are not decided.", TF),
  "C27": ("moved_fraction's range, its zero on identical layouts and on pure splits, _rechunk_stage_transfer (one and two axes, known sizes: 0 <= min <= max, never NaN), and the overrides SliceSlicesIntegers.transfer_bytes, SlidingWindowReduction.transfer_bytes, MovingWindowReduction.transfer_bytes, PartialReduce.transfer_bytes (rank 1), Blockwise.transfer_bytes (three index patterns) and the ArrayExpr default are proved from the real code. 'Same chunks move nothing' and every node's transfer_bytes (raw, optimised and materialised expressions of the catalogue) are bounded stand-ins.",
          BASE + "The transfer_bytes overrides are bounded only.", T),
